@@ -214,8 +214,25 @@ def check(case):
     res = CaseResult()
     streams = {}
 
+    early = []
+
     def reporters(config):
-        reps = []
+        # a collector that is fed feature by feature while the run goes on, IN FRONT of the summary reporters
+        # (the position of the JUnit reporter's collector): it is the first reader of each feature
+        from behave.reporter.base import Reporter
+
+        class Collecting(Reporter):
+            def __init__(self, config_):
+                super(Collecting, self).__init__(config_)
+                self.collector = SummaryCollector()
+
+            def feature(self, feature):
+                self.collector.visit_feature(feature)
+
+            def end(self):
+                pass
+        early.append(Collecting(config))
+        reps = [early[0]]
         for fmt in FORMATS:
             r = SummaryReporterV1(config)
             r.output_format = fmt
@@ -244,7 +261,7 @@ def check(case):
                 res.fail("C14.status-vs-run", "scenario %r ended in the %s class in the run (reference model) but is "
                          "counted as %s" % (s.name, want_class, lookup(s).status.name))
     reps = run.config.reporters
-    rep_v1 = reps[0]
+    rep_v1 = reps[1]
     # the collector implementation (model visitor), fed with the model after the run
     rep_v2 = SummaryCollector()
     for f in run.features:
@@ -265,17 +282,18 @@ def check(case):
         if total is not None and total != n:
             res.fail("C14.reporter.total", "%s total %s but %d elements" % (kind, total, n))
 
-    # -- 2. collector == census
-    sc = rep_v2.summary_counts
-    coll = {"feature": sc.features, "rule": sc.rules, "scenario": sc.scenarios, "step": sc.steps}
-    for kind in KINDS:
-        got = {k.name: v for k, v in coll[kind].items() if v}
-        want = {k: v for k, v in counts[kind].items() if v}
-        if got != want:
-            res.fail("C14.collector.count", "%s: collector %s, model %s" % (kind, got, want))
-        if coll[kind].all != sum(counts[kind].values()):
-            res.fail("C14.collector.total", "%s: collector total %s, %d elements"
-                     % (kind, coll[kind].all, sum(counts[kind].values())))
+    # -- 2. collector == census (fed after the run / fed during the run as the first reader of every feature)
+    for where, collector in (("", rep_v2), ("first-reader.", early[0].collector)):
+        sc = collector.summary_counts
+        coll = {"feature": sc.features, "rule": sc.rules, "scenario": sc.scenarios, "step": sc.steps}
+        for kind in KINDS:
+            got = {k.name: v for k, v in coll[kind].items() if v}
+            want = {k: v for k, v in counts[kind].items() if v}
+            if got != want:
+                res.fail("C14.collector.%scount" % where, "%s: collector %s, model %s" % (kind, got, want))
+            if coll[kind].all != sum(counts[kind].values()):
+                res.fail("C14.collector.%stotal" % where, "%s: collector total %s, %d elements"
+                         % (kind, coll[kind].all, sum(counts[kind].values())))
 
     # -- 3. printed numbers, all formats
     for (impl, fmt), stream in sorted(streams.items()):
